@@ -151,6 +151,10 @@ func c17History(c *ctx, t typeSpec, ops []setOp, how string) {
 			key, detail = "wrap-panics", fmt.Sprint(pv)
 		}
 	} else {
+		// both implementations expose the same type name, attributes and relationships
+		if a, b := oStruct(w), oStruct(t.newSoft()); a != b && key == "" {
+			key, detail = "implementations-differ-in-structure", fmt.Sprintf("wrapper %s, soft %s", a, b)
+		}
 		// mirror updates
 		steps := []string{oStruct(w), dumpRes(w, fields)}
 		for i, o := range ops {
@@ -197,6 +201,55 @@ func c17History(c *ctx, t typeSpec, ops []setOp, how string) {
 		fmt.Sprintf("(run_c17 (new_wrapped %s) %s %s)", t.gDesc(), gList(gops), gStrs(fields)), wrapObs, "", "")
 	k2.Replay = how
 	_ = final
+}
+
+// c17Retype: a soft resource whose type is replaced; never-set fields of the
+// new type read as its zero values, as on a fresh resource of that type.
+func c17Retype(c *ctx, t1 typeSpec, ops1 []setOp, t2 typeSpec, ops2 []setOp) {
+	fieldSet := map[string]bool{"id": true}
+	for _, n := range append(t1.fieldNames(), t2.fieldNames()...) {
+		fieldSet[n] = true
+	}
+	fields := keysOf(fieldSet)
+	env := newStdEnv()
+	for _, o := range append(append([]setOp{}, ops1...), ops2...) {
+		env.addValue(o.val)
+	}
+	var obs, key, detail string
+	p, pv := guard(func() {
+		ty1, ty2 := t1.softType(), t2.softType()
+		sr := &jsonapi.SoftResource{Type: &ty1}
+		for _, o := range ops1 {
+			sr.Set(o.key, o.val)
+		}
+		d1 := dumpRes(sr, fields)
+		sr.SetType(&ty2)
+		st := oStruct(sr)
+		d2 := dumpRes(sr, fields)
+		// oracle: a field of t2 that t1 does not have was never set
+		fresh := &jsonapi.SoftResource{Type: &ty2}
+		for _, f := range t2.fields {
+			if t1.field(f.name) == nil && !sameValue(sr.Get(f.name), fresh.Get(f.name)) {
+				key, detail = "unset-field-not-zero-after-settype", fmt.Sprintf("%s reads %s, a fresh resource %s", f.name, descValue(sr.Get(f.name)), descValue(fresh.Get(f.name)))
+			}
+		}
+		for _, o := range ops2 {
+			sr.Set(o.key, o.val)
+		}
+		d3 := dumpRes(sr, fields)
+		sr.SetType(&ty1)
+		d4 := dumpRes(sr, fields)
+		obs = oL([]string{d1, st, d2, d3, d4})
+	})
+	if p {
+		obs = oPanic()
+		key, detail = "retype-panics", fmt.Sprint(pv)
+	}
+	k := c.add("retype", fmt.Sprintf("%s%v -> %s%v", t1.name, t1.fieldNames(), t2.name, t2.fieldNames()),
+		fmt.Sprintf("n1=%d n2=%d same=%v", min(len(t1.fields), 6), min(len(t2.fields), 6), len(t1.fields) == len(t2.fields)), false,
+		fmt.Sprintf("(run_retype %s %s %s %s %s)", t1.gType(), gOps(ops1), t2.gType(), gOps(ops2), gStrs(fields)), obs, key, detail)
+	k.Replay = "retype"
+	_ = env
 }
 
 func randSetOps(r *rng, t typeSpec, n int) []setOp {
@@ -252,6 +305,24 @@ func runC17(c *ctx) {
 			t = randTypeSpec(c.r, pick(c.r, []string{"t", "users", "a-b"}), 8, []string{"t", "other"})
 		}
 		c17History(c, t, randSetOps(c.r, t, c.r.intn(41)), "random")
+	}
+	nr := 60
+	if c.thorough() {
+		nr = 1500
+	}
+	for i := 0; i < nr; i++ {
+		nf := 1 + c.r.intn(4)
+		t1 := randTypeSpec(c.r, "t", nf, []string{"t", "other"})
+		t2 := randTypeSpec(c.r, pick(c.r, []string{"t", "u"}), nf, []string{"t", "other"})
+		if c.r.chance(1, 2) {
+			// same number of fields, other names
+			n := min(len(t1.fields), len(t2.fields))
+			t1.fields, t2.fields = t1.fields[:n], t2.fields[:n]
+			for j := range t2.fields {
+				t2.fields[j].name = "z" + t2.fields[j].name
+			}
+		}
+		c17Retype(c, t1, randSetOps(c.r, t1, c.r.intn(8)), t2, randSetOps(c.r, t2, c.r.intn(8)))
 	}
 	runC17Equal(c)
 }
